@@ -424,6 +424,8 @@ def verify_fuc(key: str, cfg: dict) -> FucResult:
             for l in st.log:
                 if l not in res.log:
                     res.log.append(l)
+            if cfg.get("stop_after_failures") and sum(1 for o in res.obligations if o["status"] == "failed") >= cfg["stop_after_failures"]:
+                break
     except Refuse as e:
         res.error = f"outside subset: {e}"
     except KeyError as e:
